@@ -269,6 +269,22 @@ def keyFor (m : KeyMap) (ch : String × Nat) : String := (exposedAs m ch).getD c
 def spec (m : Option KeyMap) (connected : Nat → Bool) (chans : Chans) : Panel :=
   (chans.filter (inIO (m.getD []) connected)).map fun ch => (keyFor (m.getD []) ch, ch.2)
 
+/-- the same set expression read off the map AS THE USER SEES IT (`userView`: key ↦ name, or
+`None` = hidden), without any reference to how `None` is stored -/
+def uInIO (u : UserMap) (connected : Nat → Bool) (ch : String × Nat) : Bool :=
+  match u.lookup ch.1 with
+  | some (some _) => true          -- explicitly exposed / renamed, connected or not
+  | some none => false             -- explicitly hidden
+  | none => !connected ch.2        -- not mentioned: iff it has no connection
+
+def uKey (u : UserMap) (ch : String × Nat) : String :=
+  match u.lookup ch.1 with
+  | some (some n) => n
+  | _ => ch.1
+
+def uspec (u : UserMap) (connected : Nat → Bool) (chans : Chans) : Panel :=
+  (chans.filter (uInIO u connected)).map fun ch => (uKey u ch, ch.2)
+
 /-! ## Worlds -/
 
 structure Child where
